@@ -168,7 +168,9 @@ func streamStd(r *rng, n int, pfx string) {
 		if (ae == nil) != (be == nil) {
 			return "diff:error"
 		}
-		if ae == nil && !bytes.Equal(a, b) {
+		// Go 1.22 changed the standard library to spell U+0008 / U+000C as \b / \f; the fork
+		// keeps the older \u0008 / \u000c.  Same value, same length class of escape: normalised.
+		if ae == nil && !bytes.Equal(normBF(a), normBF(b)) {
 			return "diff:bytes"
 		}
 		return "same"
@@ -281,7 +283,7 @@ func streamStd(r *rng, n int, pfx string) {
 						return "diff:error"
 					}
 				}
-				if !bytes.Equal(a.Bytes(), b.Bytes()) {
+				if !bytes.Equal(normBF(a.Bytes()), normBF(b.Bytes())) {
 					return "diff:bytes"
 				}
 				return "same"
@@ -780,4 +782,32 @@ func streamE2(shard, shards int) {
 			replayCodec(id+"r", "roundtrip", []byte("0"), t)
 		}
 	}
+}
+
+// rewrite the escapes \u0008 and \u000c (either case) as \b and \f; other escape sequences
+// are stepped over as units
+func normBF(b []byte) []byte {
+	out := make([]byte, 0, len(b))
+	for i := 0; i < len(b); i++ {
+		if b[i] == '\\' && i+1 < len(b) {
+			if b[i+1] == 'u' && i+5 < len(b) {
+				h := strings.ToLower(string(b[i+2 : i+6]))
+				if h == "0008" {
+					out = append(out, '\\', 'b')
+					i += 5
+					continue
+				}
+				if h == "000c" {
+					out = append(out, '\\', 'f')
+					i += 5
+					continue
+				}
+			}
+			out = append(out, b[i], b[i+1])
+			i++
+			continue
+		}
+		out = append(out, b[i])
+	}
+	return out
 }
